@@ -229,6 +229,7 @@ func freshIssues(s *sided) []sideIssue {
 		}
 	}
 	// fills of non-root components need a fresh destination
+	par := parents(s.fn)
 	ast.Inspect(s.body, func(n ast.Node) bool {
 		c, ok := n.(*ast.CallExpr)
 		if !ok {
@@ -256,10 +257,49 @@ func freshIssues(s *sided) []sideIssue {
 		}
 		if !fresh[stripAddr(s.norm(dst))] {
 			out = append(out, sideIssue{c, fmt.Sprintf("fills %s, which was not freshly allocated (new/make) in this function: the copy writes into storage that may be shared with, or left over from, another value", s.rs.src(dst)), "fill-without-alloc", ""})
+			return true
+		}
+		// a map destination must be fresh on every path to the fill: a reused map keeps the keys it held before
+		if k == "*types.Map" {
+			dominated := false
+			want := stripAddr(s.norm(dst))
+			for _, a := range allocs {
+				if stripAddr(s.norm(a.dst)) != want {
+					continue
+				}
+				// the allocation is an earlier statement of a block that encloses the fill
+				ab, ai := enclosingBlock(par, a.node)
+				for n := ast.Node(c); n != nil; n = par[n] {
+					if blk, ok := par[n].(*ast.BlockStmt); ok && blk == ab {
+						for i, st := range blk.List {
+							if st == n && ai >= 0 && ai < i {
+								dominated = true
+							}
+						}
+					}
+				}
+			}
+			if !dominated {
+				out = append(out, sideIssue{c, fmt.Sprintf("fills the map %s although its fresh allocation (make) does not happen on every path to this point: when the destination map is reused, keys it held before survive in the copy", s.rs.src(dst)), "map-reused", ""})
+			}
 		}
 		return true
 	})
 	return out
+}
+
+// enclosingBlock: the block statement a node is a direct statement of, and its index there.
+func enclosingBlock(par map[ast.Node]ast.Node, n ast.Node) (*ast.BlockStmt, int) {
+	for ; n != nil; n = par[n] {
+		if blk, ok := par[n].(*ast.BlockStmt); ok {
+			for i, st := range blk.List {
+				if st == n {
+					return blk, i
+				}
+			}
+		}
+	}
+	return nil, -1
 }
 
 // resizeIssues: the destination-slice reuse code is evaluated over {dst nil?, len(dst)?len(src), cap(dst)>=len(src)}:
